@@ -62,6 +62,11 @@ func (e *Engine) factGlobals() map[*ssa.Global]string {
 		if sp == nil {
 			continue
 		}
+		for _, name := range sf.Immutable {
+			if gv, ok := sp.Members[name].(*ssa.Global); ok {
+				out[gv] = strings.TrimPrefix(sf.Pkg, repoMod+"/") + "." + name
+			}
+		}
 		for _, g := range sf.Globals {
 			ast.Inspect(g.Expr, func(n ast.Node) bool {
 				if id, ok := n.(*ast.Ident); ok {
